@@ -173,68 +173,153 @@ def run_flow(units_kw, nfrac, perm, visc, dp):
     return out
 
 
+def run_energy(units_kw, nfrac):
+    from porepy.applications.md_grids.model_geometries import SquareDomainOrthogonalFractures
+
+    class M(SquareDomainOrthogonalFractures, pp.MassAndEnergyBalance):
+        def bc_type_darcy_flux(self, sd):
+            s = self.domain_boundary_sides(sd); return pp.BoundaryCondition(sd, s.east + s.west, "dir")
+        def bc_type_fourier_flux(self, sd):
+            s = self.domain_boundary_sides(sd); return pp.BoundaryCondition(sd, s.east + s.west, "dir")
+        def bc_type_enthalpy_flux(self, sd):
+            s = self.domain_boundary_sides(sd); return pp.BoundaryCondition(sd, s.east + s.west, "dir")
+        def bc_values_pressure(self, bg):
+            v = self.reference_variable_values.pressure * np.ones(bg.num_cells)
+            v[self.domain_boundary_sides(bg).west] += self.units.convert_units(1.5, "Pa"); return v
+        def bc_values_temperature(self, bg):
+            v = self.reference_variable_values.temperature * np.ones(bg.num_cells)
+            v[self.domain_boundary_sides(bg).west] += self.units.convert_units(2.0, "K"); return v
+    units = pp.Units(**units_kw)
+    solid = pp.SolidConstants(permeability=0.25, porosity=0.25, residual_aperture=0.125,
+                              normal_permeability=0.5, thermal_conductivity=1.5,
+                              specific_heat_capacity=2.0, density=3.0)
+    fluid = pp.FluidComponent(viscosity=0.75, density=2.0, compressibility=0.0625, thermal_conductivity=0.5,
+                              specific_heat_capacity=1.25, thermal_expansion=0.03125, normal_thermal_conductivity=0.5)
+    params = {"times_to_export": [], "fracture_indices": list(range(nfrac)),
+              "meshing_arguments": {"cell_size": units.convert_units(0.25, "m")}, "cartesian": True,
+              "material_constants": {"solid": solid, "fluid": fluid}, "units": units,
+              "time_manager": pp.TimeManager(schedule=[0, 1.0], dt_init=1.0, constant_dt=True)}
+    m = M(params)
+    pp.run_time_dependent_model(m, {"nl_convergence_tol_res": 1e-9, "nl_convergence_tol": 1e-9})
+    sds = m.mdg.subdomains()
+    out = {"p": m.units.convert_units(m.pressure(sds).value(m.equation_system), "Pa", to_si=True),
+           "T": m.units.convert_units(m.temperature(sds).value(m.equation_system), "K", to_si=True),
+           "qf": m.units.convert_units(m.fourier_flux(sds).value(m.equation_system), "m^-1 * s^-1 * J", to_si=True)}
+    return {k: np.asarray(v).tolist() for k, v in out.items()}
+
+def run_momentum(units_kw, nfrac):
+    from porepy.applications.md_grids.model_geometries import SquareDomainOrthogonalFractures
+
+    class M(SquareDomainOrthogonalFractures, pp.MomentumBalance):
+        def bc_type_mechanics(self, sd):
+            s = self.domain_boundary_sides(sd)
+            bc = pp.BoundaryConditionVectorial(sd, s.north + s.south, "dir")
+            bc.internal_to_dirichlet(sd)
+            return bc
+        def bc_values_displacement(self, bg):
+            v = np.zeros((self.nd, bg.num_cells))
+            s = self.domain_boundary_sides(bg)
+            v[1, s.north] = self.units.convert_units(-0.001, "m")
+            v[0, s.north] = self.units.convert_units(0.0005, "m")
+            return v.ravel("F")
+    units = pp.Units(**units_kw)
+    solid = pp.SolidConstants(shear_modulus=2.0, lame_lambda=3.0, density=1.5, residual_aperture=0.125,
+                              friction_coefficient=0.5, fracture_normal_stiffness=4.0, maximum_elastic_fracture_opening=0.0, fracture_gap=0.0)
+    numerical = pp.NumericalConstants(characteristic_displacement=0.001, characteristic_contact_traction=1.0)
+    params = {"times_to_export": [], "fracture_indices": list(range(nfrac)),
+              "meshing_arguments": {"cell_size": units.convert_units(0.25, "m")}, "cartesian": True,
+              "material_constants": {"solid": solid, "numerical": numerical}, "units": units}
+    m = M(params)
+    pp.run_time_dependent_model(m, {"nl_convergence_tol_res": 1e-9, "nl_convergence_tol": 1e-9})
+    sds = m.mdg.subdomains(dim=2)
+    out = {"u": m.units.convert_units(m.displacement(sds).value(m.equation_system), "m", to_si=True),
+            "sigma": m.units.convert_units(m.stress(sds).value(m.equation_system), "Pa * m", to_si=True)}
+    fr = m.mdg.subdomains(dim=1)
+    if fr:
+        out["jump"] = m.units.convert_units(m.displacement_jump(fr).value(m.equation_system), "m", to_si=True)
+        out["trac"] = m.contact_traction(fr).value(m.equation_system) * 1.0
+    return {k: np.asarray(v).tolist() for k, v in out.items()}
+
+
 # ------------------------------------------------------------------------------------------
 class C43(Prop):
     translator_output = True  # coq/Gen/C43_tables.v is regenerated from /repo (also by setup.sh)
     id = "C43"
     props_file = "Props/C43.v"
     preamble = ("From Coq Require Import String List ZArith QArith.\nImport ListNotations.\n"
-                "From PP Require Import Model.C43 Gen.C43_tables.\nOpen Scope string_scope.\n"
+                "From PP Require Import Model.C43 Model.C43_fields Gen.C43_tables.\n"
+                "Open Scope string_scope.\n"
                 f"Definition pif : Q := {PI_Q}.\n"
                 "Definition tab (c : string) := match assoc c si_tables with Some t => t "
+                "| None => [] end.\n"
+                "Definition flds (c : string) := match assoc c class_fields with Some t => t "
                 "| None => [] end.\n")
     n_cases = (300, 10000)
     design_ref = "DESIGN.md §5 C43"
     level_text = (
         "Coq theorems (over the reals) about an executable transcription of "
-        "Units.convert_units (the unit-string grammar exactly as the code parses it), the "
-        "derived-unit properties and Constants.__post_init__/to_units, with the unit tables "
-        "(base units, bodies of the @property methods, SI_units dictionaries) regenerated "
-        "from units.py/materials.py by a fail-closed ast translator on every run: for every "
-        "unit system with positive base units, every value list and EVERY unit string the "
-        "round trip to simulation units and back is the identity and exceptions do not depend "
-        "on value or direction (C43_roundtrip, integer and decimal powers); 'a*b' converts as "
-        "a then b for any number type (C43_compose); Pa, J, N, W, degree equal their base-unit "
-        "expressions and their spellings over base units convert identically (C43_derived, "
-        "C43_derived_spellings, proved against the generated table); unit strings with equal "
-        "dimension normal forms convert identically and never raise (C43_dimension_sound); "
-        "every SI_units entry is well-formed (C43_tables_wellformed); material constants of "
-        "every class keep and recover their SI values in and across unit systems "
-        "(C43_material_roundtrip[_any_table]); the rational instance executed by the tie is the "
-        "real instance on embedded data (C43_transfer).  The model is tied to the code on every run "
-        "by executing both in exact rationals on random unit systems, unit strings (incl. "
-        "whitespace, markers, repeated units, negative/zero powers, malformed strings), "
-        "scalar/array/integer values, constructor arguments and material classes, Coq "
+        "Units.convert_units (the unit-string grammar exactly as the code parses it), "
+        "Units.__init__, the derived-unit properties and Constants.__post_init__/to_units, with "
+        "the tables (base units, bodies of the @property methods, SI_units dictionaries, "
+        "dataclass fields with defaults) regenerated from units.py/materials.py by a fail-closed "
+        "ast translator on every run: for every unit system with positive base units, every "
+        "value list and EVERY unit string the round trip to simulation units and back is the "
+        "identity and exceptions do not depend on value or direction (C43_roundtrip, integer and "
+        "decimal powers); 'a*b' converts as a then b for any number type (C43_compose); Pa, J, "
+        "N, W, degree equal their base-unit expressions and their spellings over base units "
+        "convert identically (C43_derived, C43_derived_spellings, against the generated table); "
+        "unit strings with equal dimension normal forms convert identically and never raise, "
+        "for integer powers (C43_dimension_sound) and for arbitrary decimal powers "
+        "(C43_dimension_sound_real_powers, C43_real_power_spellings); every SI_units entry is "
+        "well-formed and every dataclass field of every material class is declared "
+        "(C43_tables_wellformed, C43_fields_declared), so material constants built from any "
+        "keyword values keep and recover their SI values in and across unit systems and never "
+        "raise (C43_material_roundtrip[_any_table]); Units.__init__ accepts exactly numeric "
+        "keywords for base units with s isclose 1 (C43_units_init); the rational instance "
+        "executed by the tie is the real instance on embedded data, for convert_units and for "
+        "the material wrappers (C43_transfer, C43_material_transfer).  The model is tied to the "
+        "code on every run by executing both in exact rationals on random unit systems "
+        "(including power-of-two scalings over 2^-60..2^60), unit strings (whitespace, markers, "
+        "repeated symbols, negative/zero powers, malformed strings), python/numpy scalars, "
+        "0-d, float, integer, boolean, strided and Fortran-ordered arrays, constructor "
+        "arguments and material classes (defaults taken from the generated field table), Coq "
         "comparing the outputs.")
     level_note = (
-        "Oracle-only (NOT proved, no model): 'a flow model run with scaled length and mass "
-        "units gives the same SI solution' — checked by running pp.SinglePhaseFlow on a small "
-        "fractured Cartesian grid with scaled m/kg and comparing SI pressures/fluxes to 1e-8. "
+        "Oracle-only (NOT proved, no model): 'a model run with scaled units gives the same SI "
+        "solution' — checked by running pp.SinglePhaseFlow, pp.MassAndEnergyBalance and "
+        "pp.MomentumBalance (with contact mechanics when fractured) on a small Cartesian grid "
+        "with 0-2 fractures in scaled m/kg/K and comparing SI pressures, temperatures, fluxes, "
+        "displacements, stresses, jumps and tractions to 1e-8. Also oracle-only: the returned "
+        "array never shares memory with the argument (in-place mutation probes both ways). "
         "Theorems are over exact reals (x**float(p) = Rpower on positive x); floating-point "
-        "rounding is covered only by the 1e-9 relative comparison of the tie. For convert_units "
-        "the Q instance executed in the tie is proved to be the R instance of the theorems on "
-        "the embedded data (C43_transfer); for Units.__init__ and the material-constant "
-        "wrappers (which only call convert) no separate transfer lemma is stated. "
-        "Decimal non-integer powers are proved (round trip, composition) but executed only "
-        "against the float oracle; C43_dimension_sound covers integer powers only. Power "
-        "strings in exponent/inf/nan/underscore notation and method/private attribute names "
-        "are outside the model (Unmodelled; the tie checks the class boundary). Composition is "
+        "rounding is covered only by the 1e-9 relative comparison of the tie. Decimal "
+        "non-integer powers are proved (round trip, composition, dimension normal form on units "
+        "with coefficient 1: base units, Pa, J, N, W) but executed only against the float "
+        "oracle. Units.__init__ is modelled over Q only (no real instance needed). Power "
+        "strings in exponent/inf/nan/underscore notation and method/private attribute names are "
+        "outside the model (Unmodelled; the tie checks the class boundary). Composition is "
         "stated for factors that are not the whole-string dimensionless markers '', '1', '-' "
-        "('1*m' raises AttributeError by the documented grammar). Trusted: Coq kernel + "
-        "vm_compute, the translator harness/translator/units_tables.py, the harness.")
+        "('1*m' raises AttributeError by the documented grammar). A keyword that is not a "
+        "dataclass field (TypeError of the generated __init__) is not generated. Trusted: Coq "
+        "kernel + vm_compute, the translator harness/translator/units_tables.py, the harness.")
     technique = ("Coq proof over R (field/positivity, dimension normal form) on translator-"
                  "generated unit tables + vm_compute execution correspondence in Q + oracle")
     rule = ("unit systems: base units drawn from powers of 2 and small rationals times powers "
-            "of ten (passed as float or int; the model gets the exact binary value); unit "
-            "strings: 0-4 factors from base+derived names with integer powers in many "
-            "spellings, decimal powers, random spaces, the markers '', '1', '-', and a stream "
-            "of malformed strings (unknown names, '1*m', 'm**s', 'm^2^3', 'm^', 'm^x', "
-            "'Pa*m^3/kg', exponent notation, method names); values: dyadic scalars, float and "
-            "integer arrays of length 0-4 and 2x2; each conversion is also run backwards and "
-            "split at a random '*'; plus constructor argument cases, derived-unit reads, "
-            "material-constant objects of every class (construction, to_units), and scaled "
-            "flow runs; non-trivial = a conversion with at least one non-unit factor, or a "
-            "non-convert case")
+            "of ten (passed as float or int; the model gets the exact binary value), 15% "
+            "'extreme' systems with exact scalings 2^+-(20..60) on every base unit and s assigned "
+            "directly; unit strings: 0-4 factors from base+derived names with integer powers in "
+            "many spellings, decimal powers, random spaces, one symbol repeated 2-4 times with "
+            "different powers, the markers '', '1', '-', and a stream of malformed strings "
+            "(unknown names, '1*m', 'm**s', 'm^2^3', 'm^', 'm^x', 'Pa*m^3/kg', exponent "
+            "notation, method names); values: dyadic python/np.float64 scalars, 0-d arrays, "
+            "float / integer / boolean arrays of length 0-4 and 2x2, strided views into a larger "
+            "buffer, Fortran order; each conversion is also run backwards and split at a random "
+            "'*'; the returned array and the argument are overwritten in place afterwards "
+            "(aliasing probe, buffer around a view checked); plus constructor argument cases, "
+            "derived-unit reads, material-constant objects of every class (keyword subsets, "
+            "defaults from the generated field table, to_units twice, original re-read), and "
+            "scaled runs of three model families; non-trivial = a conversion with at least one "
+            "non-unit factor, or a non-convert case")
     trusted = ["translator harness/translator/units_tables.py (fail-closed, grammar in its "
                "docstring)",
                "floats/ints handed to the implementation are represented exactly; comparison "
@@ -325,10 +410,34 @@ class C43(Prop):
     def _gen_convert(self, rng, info):
         names = info["bases"] + info["derived"]
         kw, s_direct = self._units_kw(rng, info)
+        mode = rng.random()
+        extreme = mode < 0.15
+        if extreme:
+            # exact power-of-two scalings over many orders of magnitude (tiny and huge)
+            kw = {k: float(2.0 ** (rng.choice([-1, 1]) * rng.randint(20, 60)))
+                  for k in info["bases"] if k != "s" and rng.random() < 0.8}
+            s_direct = rng.choice([None, None, 2.0 ** 20, 2.0 ** -20])
         r = rng.random()
         split = None
         valid = True
-        if r < 0.07:
+        if extreme or 0.15 <= mode < 0.27:
+            if extreme:
+                facs = [rng.choice(names) + rng.choice(["", "^2", "^-1", "^-2", "^1", "^0"])
+                        for _ in range(rng.choice([1, 2]))]
+            else:
+                # one symbol repeated with different powers (they must accumulate)
+                n0 = rng.choice(names)
+                facs = [n0 + (("^" + self._power(rng)) if rng.random() < 0.7 else "")
+                        for _ in range(rng.randint(2, 4))]
+            if len(facs) >= 2:
+                i = rng.randint(1, len(facs) - 1)
+                a = self._spaces(rng, "*".join(facs[:i]))
+                b = self._spaces(rng, "*".join(facs[i:]))
+                unit = a + "*" + b
+                split = [a, b]
+            else:
+                unit = self._spaces(rng, facs[0])
+        elif r < 0.07:
             unit = self._spaces(rng, rng.choice(["", "1", "-"]))
             if rng.random() < 0.3:
                 unit = " " * rng.randint(0, 3) + unit
@@ -365,9 +474,22 @@ class C43(Prop):
             else:
                 dtype = "float"
                 value = [dy() for _ in range(n)]
+        vkind = "py"
+        if scalar and dtype == "float" and rng.random() < 0.3:
+            vkind = rng.choice(["np64", "zerod"])
+            if vkind == "zerod":
+                scalar, shape = False, []
+        elif not scalar and dtype == "float" and rng.random() < 0.3:
+            vkind = rng.choice(["view", "fortran"]) if len(shape) == 2 or rng.random() < 0.5 else "view"
+            if vkind == "fortran" and len(shape) != 2:
+                vkind = "view"
+        elif not scalar and dtype == "int" and rng.random() < 0.3:
+            vkind = "bool"
+            value = [rng.randint(0, 1) for _ in value]
         return {"kind": "convert", "units_kw": kw, "s_direct": s_direct, "unit": unit,
                 "to_si": rng.random() < 0.5, "split": split, "valid": valid,
-                "value": value, "scalar": scalar, "shape": shape, "dtype": dtype}
+                "value": value, "scalar": scalar, "shape": shape, "dtype": dtype,
+                "vkind": vkind}
 
     def _gen_init(self, rng, info):
         kw = []
@@ -408,20 +530,24 @@ class C43(Prop):
                 fields.append([k, v])
         kw1, _ = self._units_kw(rng, info)
         kw2, _ = self._units_kw(rng, info)
-        return {"kind": "material", "cls": cls, "fields": fields, "units1": kw1, "units2": kw2}
+        kw3, _ = self._units_kw(rng, info)
+        return {"kind": "material", "cls": cls, "fields": fields, "units1": kw1, "units2": kw2,
+                "units3": kw3}
 
     def generate(self, rng, n, tier):
         info = tables()
-        nflow = 1 if tier == "quick" else 3
+        nflow = 2 if tier == "quick" else 7
         for i in range(n):
             r = rng.random()
             if i < nflow:
-                sc = [(2.0, 3.0), (0.5, 8.0), (4.0, 0.25), (10.0, 1000.0), (0.125, 2.0)]
+                sc = [(2.0, 3.0, 1.0), (0.5, 8.0, 4.0), (4.0, 0.25, 0.5), (10.0, 1000.0, 1.0),
+                      (0.125, 2.0, 16.0)]
                 rng.shuffle(sc)
-                yield {"kind": "flow", "nfrac": rng.randint(0, 2),
+                family = "flow" if i == 0 else ["energy", "momentum", "flow"][(i - 1) % 3]
+                yield {"kind": "flow", "family": family, "nfrac": rng.randint(0, 2),
                        "perm": rng.choice([0.25, 0.5, 2.0]), "visc": rng.choice([0.75, 1.0, 0.5]),
                        "dp": rng.choice([1.5, 1.0, 3.0]),
-                       "scalings": [{"m": a, "kg": b} for a, b in sc[:2]]}
+                       "scalings": [{"m": a, "kg": b, "K": c} for a, b, c in sc[:2]]}
             elif r < 0.72:
                 yield self._gen_convert(rng, info)
             elif r < 0.8:
@@ -437,8 +563,10 @@ class C43(Prop):
         return [getattr(u, b) for b in info["bases"]]
 
     def _call(self, u, value, unit, to_si, catch_all):
+        self._raw = None
         try:
             r = u.convert_units(value, unit, to_si)
+            self._raw = r
         except AttributeError:
             return ["err", "AttrErr"]
         except ValueError:
@@ -456,10 +584,24 @@ class C43(Prop):
         return ["vals", [float(r)], None]
 
     def _value(self, case):
+        vk = case.get("vkind", "py")
         if case["scalar"]:
-            return case["value"][0]
-        return np.array(case["value"], dtype=(int if case["dtype"] == "int" else float)
-                        ).reshape(case["shape"])
+            return np.float64(case["value"][0]) if vk == "np64" else case["value"][0]
+        if vk == "zerod":
+            return np.array(case["value"][0], dtype=float)
+        if vk == "bool":
+            return np.array(case["value"], dtype=bool).reshape(case["shape"])
+        a = np.array(case["value"], dtype=(int if case["dtype"] == "int" else float)
+                     ).reshape(case["shape"])
+        if vk == "view":
+            # non-contiguous view into a larger buffer (last axis strided)
+            base = np.full(tuple(case["shape"][:-1]) + (2 * case["shape"][-1] + 1,), 123.0)
+            base[..., 0:2 * case["shape"][-1]:2] = a
+            self._base = base
+            return base[..., 0:2 * case["shape"][-1]:2]
+        if vk == "fortran":
+            return np.asfortranarray(a)
+        return a
 
     def run_impl(self, case):
         info = tables()
@@ -468,12 +610,31 @@ class C43(Prop):
             u = mk_units(case["units_kw"], case["s_direct"])
             pred = predict(case["unit"], info)
             ca = pred == "unmodelled"
+            self._base = None
             value = self._value(case)
             keep = value.copy() if isinstance(value, np.ndarray) else value
+            keep_base = None if self._base is None else self._base.copy()
             out = self._call(u, value, case["unit"], case["to_si"], ca)
+            raw = self._raw
             unchanged = bool(np.array_equal(value, keep)) and (
                 not isinstance(value, np.ndarray) or value.dtype == keep.dtype)
+            alias_ok = True
+            if isinstance(value, np.ndarray) and isinstance(raw, np.ndarray):
+                # the returned array must be independent of the argument (also for "", "1", "-")
+                alias_ok = raw is not value and not np.shares_memory(raw, value)
+                snap = raw.copy()
+                if raw.size and raw.dtype.kind == "f":
+                    raw[...] = 4242.0
+                    alias_ok = alias_ok and bool(np.array_equal(value, keep))
+                    raw[...] = snap
+                    if value.dtype.kind == "f":
+                        value[...] = -4242.0
+                        alias_ok = alias_ok and bool(np.array_equal(raw, snap, equal_nan=True))
+                        value[...] = keep
+            if keep_base is not None:
+                unchanged = unchanged and bool(np.array_equal(self._base, keep_base))
             res = {"env": self._env(u, info), "out": out, "input_unchanged": unchanged,
+                   "alias_ok": bool(alias_ok),
                    "pred": pred, "back": None, "composed": None}
             if out[0] == "vals":
                 v2 = out[1][0] if out[2] is None else np.array(out[1]).reshape(out[2])
@@ -507,9 +668,15 @@ class C43(Prop):
         if kind == "material":
             C = getattr(materials, case["cls"])
             u1, u2 = pp.Units(**case["units1"]), pp.Units(**case["units2"])
-            c1 = C(name="x", units=u1, **dict(case["fields"]))
+            try:
+                c1 = C(name="x", units=u1, **dict(case["fields"]))
+            except AttributeError as e:
+                return {"ctor_error": "AttributeError: " + str(e)[:120]}
             c2 = c1.to_units(u2)
             cd = C(name="x", units=u2, **dict(case["fields"]))
+            u3 = pp.Units(**case.get("units3", {}))
+            c3 = c2.to_units(u3)          # second hop: must not depend on the path
+            cd3 = C(name="x", units=u3, **dict(case["fields"]))
             keys = list(c1.constants_in_SI.keys())
             si_tab = C.SI_units
 
@@ -523,13 +690,25 @@ class C43(Prop):
                     "attrs2": [float(getattr(c2, k)) for k in keys],
                     "direct2": [float(getattr(cd, k)) for k in keys],
                     "back1": back(c1, u1), "back2": back(c2, u2),
-                    "same_type": type(c2) is C, "units2_is": c2.units is u2}
+                    "same_type": type(c2) is C, "units2_is": c2.units is u2,
+                    "attrs3": [float(getattr(c3, k)) for k in keys],
+                    "direct3": [float(getattr(cd3, k)) for k in keys],
+                    "si3": [c3.constants_in_SI[k] for k in keys],
+                    "orig_after": [float(getattr(c1, k)) for k in keys]}
         if kind == "flow":
-            ref = run_flow({}, case["nfrac"], case["perm"], case["visc"], case["dp"])
+            fam = case.get("family", "flow")
+
+            def run(kw):
+                if fam == "energy":
+                    return run_energy(kw, case["nfrac"])
+                if fam == "momentum":
+                    return run_momentum(kw, case["nfrac"])
+                return run_flow(kw, case["nfrac"], case["perm"], case["visc"], case["dp"])
+            ref = run({})
             worst = 0.0
             sizes = {k: len(v) for k, v in ref.items()}
             for kw in case["scalings"]:
-                r = run_flow(kw, case["nfrac"], case["perm"], case["visc"], case["dp"])
+                r = run(kw)
                 for k in ref:
                     a, b = np.array(ref[k]), np.array(r[k])
                     if a.shape != b.shape:
@@ -538,8 +717,9 @@ class C43(Prop):
                     worst = max(worst, float(np.max(np.abs(a - b)) / (np.max(np.abs(a)) + 1e-300)))
             self._flow["runs"] += 1 + len(case["scalings"])
             self._flow["max_rel"] = max(self._flow["max_rel"], worst)
-            return {"max_rel_diff": worst, "sizes": sizes,
-                    "p_range": [min(ref["p"]), max(ref["p"])]}
+            self._flow.setdefault("families", {})
+            self._flow["families"][fam] = self._flow["families"].get(fam, 0) + 1
+            return {"max_rel_diff": worst, "sizes": sizes, "family": fam}
         raise ValueError(kind)
 
     # -- oracle --------------------------------------------------------------------------
@@ -554,6 +734,8 @@ class C43(Prop):
             out = res["out"]
             if not res["input_unchanged"]:
                 return "convert_units modified its input array"
+            if not res.get("alias_ok", True):
+                return "convert_units returned an array that shares data with its argument"
             if f is None:
                 # not a unit string of the documented grammar: the property demands nothing,
                 # except that a successful conversion still round-trips
@@ -600,6 +782,9 @@ class C43(Prop):
                     return f"derived unit {d} = {v}, base-unit expression gives {exp}"
             return None
         if kind == "material":
+            if "ctor_error" in res:
+                return ("constructing " + case["cls"] + " with declared fields raised "
+                        + res["ctor_error"])
             given = dict(case["fields"])
             for k, s1, s2, b1, b2, a2, d2 in zip(res["keys"], res["si1"], res["si2"], res["back1"],
                                                  res["back2"], res["attrs2"], res["direct2"]):
@@ -611,12 +796,17 @@ class C43(Prop):
                     return f"{k}: converted back to SI gives {b1}/{b2}, SI value {s1}"
                 if a2 != d2:
                     return f"{k}: to_units gives {a2}, direct construction gives {d2}"
+            if res.get("attrs3") is not None:
+                if res["attrs3"] != res["direct3"] or res["si3"] != res["si1"]:
+                    return "to_units after to_units differs from direct construction"
+                if res["orig_after"] != res["attrs1"]:
+                    return "to_units changed the object it was called on"
             if not res["same_type"]:
                 return "to_units changed the class"
             return None
         if kind == "flow":
             if not res["max_rel_diff"] <= 1e-8:
-                return (f"scaled flow runs differ from the SI run by {res['max_rel_diff']:.3e} "
+                return (f"scaled {res.get('family', 'flow')} runs differ from the SI run by {res['max_rel_diff']:.3e} "
                         "(relative, in SI)")
             return None
         return None
@@ -656,9 +846,13 @@ class C43(Prop):
             impl = f"(InitOk {cqlist(o[1])})" if o[0] == "ok" else f"(InitErr {o[1]})"
             return f"agree_init base_units {clist(case['kwargs'], kv)} {impl}"
         if kind == "material":
-            cs = cenv(res["keys"], res["si1"])
-            return (f"agree_material pif derived_table other_attrs (tab {cstring(case['cls'])}) "
-                    f"{cenv(info['bases'], res['env1'])} {cenv(info['bases'], res['env2'])} {cs} "
+            if "ctor_error" in res:
+                return "false"
+            given = cenv([k for k, _ in case["fields"]], [v for _, v in case["fields"]])
+            return (f"agree_material_given pif derived_table other_attrs "
+                    f"(tab {cstring(case['cls'])}) (flds {cstring(case['cls'])}) "
+                    f"{cenv(info['bases'], res['env1'])} {cenv(info['bases'], res['env2'])} {given} "
+                    f"{clist(res['keys'], cstring)} "
                     f"{cqlist(res['attrs1'])} {cqlist(res['si1'])} {cqlist(res['attrs2'])} "
                     f"{cqlist(res['si2'])}")
         return None
